@@ -114,6 +114,7 @@ def run(ctx):
     impl = run_lines_resilient(binr, [dict(c, op="negotiate") for c in cases])
     # build the Lean requests
     lreqs, idx = [], []
+    fl_reqs, fl_idx = [], []
     for i, (c, r) in enumerate(zip(cases, impl)):
         if "panic" in r or "crash" in r or "bad_op" in r:
             report_violation(ctx, "negotiate-panics", {"case": c, "impl": r, "kind": "impl panics"})
@@ -125,7 +126,12 @@ def run(ctx):
         lreqs.append({"op": "langid.filter", "reqs": [conv(p) for p in parsed], "avail": [conv(a) for a in av],
                       "impl_find": allidx.index(r["find"]) if r["find"] in allidx else len(allidx)})
         idx.append(i)
+        if "avail" not in c and r["find_locale"] != r["find"]:
+            # the public entry point `Locale::find_locale` answered differently from `find_match`: its answer is judged on its own
+            fl_reqs.append(dict(lreqs[-1], impl_find=r["find_locale"]))
+            fl_idx.append(i)
     model = lean_driver(lreqs)
+    fl_ok = {i: m["spec_ok_impl"] and (bool(impl[i]["filter"]) or m["served"] or impl[i]["find_locale"] == 0) for i, m in zip(fl_idx, lean_driver(fl_reqs))} if fl_reqs else {}
     mism = 0
     for i, m in zip(idx, model):
         c, r = cases[i], impl[i]
@@ -165,6 +171,9 @@ def run(ctx):
             spec_bad = "no match but not the default"
         if any(x not in allidx for x in r["filter"]):
             spec_bad = "result not supported"
+        if i in fl_ok and not fl_ok[i]:
+            spec_bad = "find_locale: chosen locale is not acceptable (order of preference / exactness / support)"
+            r = dict(r, find=r["find_locale"])
         if not m["spec_ok_model"]:
             raise HarnessError("model violates its own proved specification: " + json.dumps(c))
         if spec_bad:
